@@ -528,8 +528,13 @@ def predicates(ctx, c, r):
         ctx.obligation('case %d: chunk spectra add up to the whole' % c['id'], g6, 'predicate')
         if not g6:
             viol('chunk spectra do not add up to the spectrum of the whole dictionary (max diff %.3g)' % float(np.max(np.abs(whole - ssum))), 'fragment_data_dict:spectra-do-not-add-up')
-        g7 = len(r['boots']) == c['nboot'] == len(r['picks'])
-        for bt, pk in zip(r['boots'], r['picks']):
+        if 'boots_error' in r:
+            if len(r['chunks']) == 0:
+                ctx.count('empty_dictionary_no_bootstrap')      # reduce() of an empty sequence: no chunk to draw from
+            else:
+                viol('bootstraps_from_dd_chunks raised on %d chunks: %s' % (len(r['chunks']), r['boots_error']), 'bootstraps_from_dd_chunks:raises')
+        g7 = 'boots' not in r or len(r['boots']) == c['nboot'] == len(r['picks'])
+        for bt, pk in zip(r.get('boots', []), r['picks']):
             want = np.sum([np.array(r['chunk_fs'][i]['data']) for i in pk['idx']], axis=0)
             g7 = g7 and pk['k'] == len(r['chunks']) == pk['n'] and close(np.array(bt['data']), want) \
                 and bt['mask'] == r['whole_fs']['mask'] and bt['folded'] == (not c['boot_polarized']) and bt['pop_ids'] == c['pop_ids']
@@ -537,6 +542,13 @@ def predicates(ctx, c, r):
         if not g7:
             viol('a bootstrap spectrum is not the sum of the drawn chunk spectra', 'bootstraps_from_dd_chunks:not-sum-of-chunks')
     # the SNP-file reader (Misc.make_data_dict) on the same counts must give the same dictionary entries and spectra
+    if 'snp_transport_error' in r:
+        ctx.count('compressed_snp_file_unreadable')
+        if not getattr(ctx, '_c13_snptr', False):
+            ctx._c13_snptr = True
+            viol('make_data_dict cannot read a %s SNP file (documented as supported): %s' % (c['snp_transport'], r['snp_transport_error']),
+                 'make_data_dict:compressed-file-raises')
+            nviol -= 1
     if c.get('snp_text'):
         if 'snp_error' in r:
             ctx.obligation('case %d: make_data_dict reads the SNP-file form of the data' % c['id'], False, 'predicate', r['snp_error'])
@@ -544,7 +556,7 @@ def predicates(ctx, c, r):
         else:
             sd = {e['key']: e for e in r['snp_dd']}
             same = set(sd) == set(dd) and all(
-                sorted(map(tuple, sd[k]['calls'])) == sorted(map(tuple, dd[k]['calls'])) and sd[k]['seg'] == dd[k]['seg'] and sd[k]['out'] == dd[k]['out']
+                sorted(map(tuple, sd[k]['calls'])) == sorted(map(tuple, dd[k]['calls'])) and sd[k]['seg'] == dd[k]['seg'] and (sd[k]['out'] if sd[k]['out'] in sd[k]['seg'] else None) == (dd[k]['out'] if dd[k]['out'] in dd[k]['seg'] else None)
                 for k in sd if k in dd)
             g8 = same and close(r['snp_fs_pol']['data'], r['fs_pol']['data']) and close(r['snp_fs_fold']['data'], r['fs_fold']['data']) \
                 and r['snp_fs_pol']['mask'] == r['fs_pol']['mask'] and r['snp_fs_fold']['mask'] == r['fs_fold']['mask']
@@ -580,13 +592,14 @@ def run(ctx):
                 'bootstraps, key suffixes, gzip/zip transport), all from one PRNG; distinct = distinct case text+settings; non-trivial = at least one usable SNP')
     ctx.assumptions += ['spectra: float64 vs exact rational evaluation at 1e-11 x largest entry; statistics at 1e-10 x max(1,|value|)',
                         'the genotype strings are diploid with alleles 0/1/. (biallelic records only count 0 and 1)',
-                        'Tajima D is compared only for n >= 4 chromosomes and S > 0 (for n = 2, 3 the variance term is 0 up to rounding)']
+                        'Tajima D is compared only for n >= 4 chromosomes and S > 0 (for n = 2, 3 the variance term is 0 up to rounding)',
+                        'bootstraps of an empty data dictionary (no chunk) raise TypeError in reduce(); model: None; not counted as a violation']
     ctx.trusted += ['numpy.random.choice (subsampling) and random.choices (bootstrap): arbitrary choice; the draws made by the real '
                     'generators are recorded and replayed as the oracle of the model; theorems hold for every oracle',
                     'gzip/zip transport of the input files: identity, runtime only (exercised, not modelled)',
                     'sqrt in Tajima D: an uninterpreted function in the theorem, Z.sqrt-based 110-bit approximation when the model runs']
     ctx.level = 'proof'
-    ncases = ctx.pick(60, 1500)
+    ncases = ctx.pick(60, 1000)
     cases = [gen_case(ctx.rng, i, ctx) for i in range(ncases)]
     if ctx.replay:
         rp = json.load(open(ctx.replay))
@@ -597,6 +610,7 @@ def run(ctx):
     for c in cases:
         if c['truth'] and not c['subsample'] and not c['truth']['inconsistent'] and 'snp_text' not in c:
             c['snp_text'] = snp_file_text(c, ctx.rng)
+            c['snp_transport'] = ctx.rng.choice(['plain'] * 8 + ['gz', 'zip'])
     batches = [cases[i:i + 100] for i in range(0, len(cases), 100)]
     for batch in batches:
         res = lib.run_impl('c13_impl.py', [slim(c) for c in batch], timeout=1800)
